@@ -24,6 +24,7 @@ type signer struct {
 	rsa     *c23.Key                               // RSA: the private key, for forgeries that need it
 	algos   []int                                  // algorithms this key can sign
 	q       *big.Int                               // group order for DER signatures (nil for RSA/Ed25519)
+	rounds  int                                    // 0 = the default number of rounds
 }
 
 func flipBit(r *zv.Rng, b []byte) []byte {
@@ -35,12 +36,19 @@ func flipBit(r *zv.Rng, b []byte) []byte {
 	return c
 }
 
-func emit(g *zv.Gen, keyArgs string, algo int, msg, sig []byte) {
+func emit(g *zv.Gen, keyArgs string, algo int, msg, sig []byte) { emitOp(g, "csfk", keyArgs, algo, msg, sig) }
+
+// emitGenuine: the signature was made by the library's own signer with the matching key over exactly msg under algo.
+func emitGenuine(g *zv.Gen, keyArgs string, algo int, msg, sig []byte) {
+	emitOp(g, "csfkg", keyArgs, algo, msg, sig)
+}
+
+func emitOp(g *zv.Gen, op, keyArgs string, algo int, msg, sig []byte) {
 	o := 0
 	if oracle(strings.Fields(keyArgs), algo, msg, sig) {
 		o = 1
 	}
-	g.Emitf("c03 csfk %s %d %s %s %d", keyArgs, algo, zv.Hex(msg), zv.Hex(sig), o)
+	g.Emitf("c03 %s %s %d %s %s %d", op, keyArgs, algo, zv.Hex(msg), zv.Hex(sig), o)
 }
 
 func gen(g *zv.Gen) {
@@ -99,27 +107,35 @@ func gen(g *zv.Gen) {
 				return sig
 			}})
 	}
-	// DSA (fixed L1024N160 parameters)
-	{
-		params := dsa.Parameters{P: c23.UnHx(dsaP), Q: c23.UnHx(dsaQ), G: c23.UnHx(dsaG)}
+	// DSA: every parameter set with a group order of 160 / 224 / 256 (/ 192 / 384) bits, DSAWithSHA1 and DSAWithSHA256:
+	// the digest is shorter than, as long as, and longer than q
+	for si, ps := range dsaSets() {
+		if !ps.x509 || (g.Quick && !ps.quick) {
+			continue
+		}
+		params := dsa.Parameters{P: ps.P, Q: ps.Q, G: ps.G}
 		mk := func() (*dsa.PrivateKey, string) {
-			x := new(big.Int).SetBytes(r.Bytes(24))
+			x := new(big.Int).SetBytes(r.Bytes(ps.Q.BitLen()/8 + 4))
 			x.Mod(x, new(big.Int).Sub(params.Q, big.NewInt(1)))
 			x.Add(x, big.NewInt(1))
 			pk := &dsa.PrivateKey{PublicKey: dsa.PublicKey{Parameters: params, Y: new(big.Int).Exp(params.G, x, params.P)}, X: x}
-			return pk, fmt.Sprintf("dsa %s %s %s %s", dsaP, dsaQ, dsaG, c23.Hx(pk.Y))
+			return pk, fmt.Sprintf("dsa %s %s %s %s", c23.Hx(ps.P), c23.Hx(ps.Q), c23.Hx(ps.G), c23.Hx(pk.Y))
 		}
 		pk, args := mk()
 		_, args2 := mk()
 		rr := r.Fork()
-		signers = append(signers, signer{keyArgs: args, altArgs: []string{args2}, algos: []int{7, 8}, q: params.Q,
+		sg := signer{keyArgs: args, altArgs: []string{args2}, algos: []int{7, 8}, q: params.Q,
 			sign: func(algo int, msg []byte) []byte {
-				rv, sv, err := dsa.Sign(rr, pk, digestFor(algo, msg))
+				rv, sv, err := dsa.Sign(skip1{rr}, pk, digestFor(algo, msg))
 				if err != nil {
 					panic(err)
 				}
 				return encSig(rv, sv)
-			}})
+			}}
+		if si > 0 {
+			sg.rounds = g.N(1, 6)
+		}
+		signers = append(signers, sg)
 	}
 	// ECDSA P-256 / P-384, as *ecdsa.PublicKey and as *AugmentedECDSA
 	for _, c := range []struct {
@@ -158,13 +174,18 @@ func gen(g *zv.Gen) {
 			sign: func(algo int, msg []byte) []byte { return ed25519.Sign(priv, msg) }})
 	}
 
-	rounds := g.N(3, 30)
+	genDSA(g)
+
 	for _, s := range signers {
+		rounds := g.N(3, 30)
+		if s.rounds > 0 {
+			rounds = s.rounds
+		}
 		for _, algo := range s.algos {
 			for round := 0; round < rounds; round++ {
 				msg := r.Bytes(1 + r.Intn(200))
 				sig := s.sign(algo, msg)
-				emit(g, s.keyArgs, algo, msg, sig) // genuine
+				emitGenuine(g, s.keyArgs, algo, msg, sig) // genuine: must be accepted
 				// changed message
 				emit(g, s.keyArgs, algo, flipBit(r, msg), sig)
 				emit(g, s.keyArgs, algo, append(append([]byte{}, msg...), 0), sig)
